@@ -286,13 +286,13 @@ PROPS["C09"] = {
           what="robust set, capacity 3", bounds="unwind 5; 4 steps"),
         H("c09::sched::c09_s_uis_race_cap2", crate="hs", covers=2, timeout=2400, mem_gb=14, tiers=("quick",),
           what="two threads racing acquire/release on the real free list; exclusivity, bounds, legitimate failures, "
-               "leak freedom; ABA shape witnessed", bounds="unwind 5; capacity 2, 1 outer operation (acquire, or release of an index held before the race) preempted at any scheduling point, up to 2 inner operations (one may run before)"),
+               "leak freedom; ABA shape witnessed", bounds="unwind 5; capacity 2, 1 outer operation (acquire, or release of an index held before the race) preempted before any of its atomic operations, up to 2 inner operations (one may run before)"),
         H("c09::sched::c09_s_uis_race_cap2_lock", crate="hs", covers=2, timeout=2400, mem_gb=14, tiers=("quick",),
           what="same race with every release in LockIfLastIndex mode: Locked reported iff the set is locked afterwards, "
                "no acquire succeeds after a reported lock, the last release locks",
-          bounds="unwind 5; capacity 2, 1 outer operation (acquire, or release of an index held before the race) preempted at any scheduling point, up to 2 inner operations (one may run before)"),
+          bounds="unwind 5; capacity 2, 1 outer operation (acquire, or release of an index held before the race) preempted before any of its atomic operations, up to 2 inner operations (one may run before)"),
         H("c09::sched::c09_s_uis_race_cap2_lock_deep", crate="hs", covers=2, timeout=7200, mem_gb=30, tiers=("thorough",),
-          what="lock-if-last race, 2 outer / 3 inner operations", bounds="unwind 6"),
+          what="lock-if-last race, 1 outer / 3 inner operations, preemption also before cell accesses", bounds="unwind 7"),
         H("c09::sched::c09_s_robust_recover_race", crate="hs", covers=2, timeout=2400, mem_gb=12, tiers=("quick",),
           what="robust set: recovery of a dead owner preempted at every atomic operation while a second recoverer and "
                "a live owner (acquire/release) run in the gaps: exactly the dead owner's indices, each once; the live "
@@ -302,7 +302,7 @@ PROPS["C09"] = {
         H("c09::sched::c09_s_uis_race_cap1", crate="hs", covers=1, timeout=1800, mem_gb=8, tiers=("quick",),
           what="same, capacity 1", bounds="unwind 6; 1 outer / 2 inner operations"),
         H("c09::sched::c09_s_uis_race_cap3_deep", crate="hs", covers=2, timeout=7200, mem_gb=30, tiers=("thorough",),
-          what="capacity 2, 2 outer / 3 inner operations", bounds="unwind 7"),
+          what="capacity 2, 1 outer / 3 inner operations, preemption also before free-list cell accesses", bounds="unwind 7"),
     ],
     "claimed": False,
 }
@@ -476,6 +476,10 @@ PROPS["C05"] = {
           what="real event hand-shake (Handle::notify / Waiter::drain_events) over KStorage + counting trigger: 3 symbolic "
                "notify/try_wait/blocking_wait steps; delivered == notified-and-undelivered; no sleep while pending",
           bounds="unwind 16; ids <= 3"),
+        H("cal::c05ev::c05_ev_notify_races_wait", features=CAL, covers=2, timeout=3600, mem_gb=28,
+          what="a notification wakes the listener inside its wait call (or at the start of the drain) and a second one "
+               "(id symbolic) completes while the collected ids are handed to the callback; the following wait delivers "
+               "everything notified and never sleeps on a pending notification", bounds="unwind 16; ids <= 3, 2 waits"),
         H("cal::c05ev::c05_ev_id_out_of_range", features=CAL, covers=0, timeout=3600, mem_gb=20, tiers=("thorough",),
           what="id beyond event_id_max refused, delivers nothing", bounds="unwind 16"),
     ],
@@ -582,3 +586,4 @@ NOT_READY = ["C01", "C02", "C03", "C05", "C08", "C09", "C10", "C11", "C12", "C13
 for _p in NOT_READY:
     if _p in PROPS:
         PROPS[_p]["claimed"] = False
+PROPS["C03"]["extra"] = [_engine_m("c08_completion")]
